@@ -22,5 +22,11 @@ import Tie.Flags
 #print axioms Sourcer.C04_no_other_skip_point
 #print axioms Sourcer.C04_literal_then_skip
 #print axioms Sourcer.C04_skip_maximal
+#print axioms Sourcer.C07_memo_transparent
+#print axioms Sourcer.C07_started_only_on_miss
+#print axioms Sourcer.C07_hit_returns_stored
+#print axioms Sourcer.C07_at_most_once
+#print axioms Sourcer.C07_evaluation_bound
+#print axioms Sourcer.C07_memo_write_once
 #print axioms Tie.implFlags_sound -- module Tie.Flags
 #print axioms Tie.impl_refines -- module Tie.Flags
